@@ -1036,6 +1036,7 @@ pub fn run(rep: &mut Report) {
 	for s in samples.into_iter().step_by(step).take(8) {
 		rep.cover.sample(s);
 	}
+	skip_ladders(rep);
 	let c = &rep.cover.counters;
 	let need = [
 		"leaves_with_baseline",
@@ -1069,6 +1070,17 @@ pub fn run(rep: &mut Report) {
 
 pub fn replay(v: &serde_json::Value) -> i32 {
 	let r = &v["replay"];
+	if r["skip_ladder"].is_string() {
+		let mut rep = Report::new("C12", "quick");
+		skip_ladders(&mut rep);
+		let k = r["k"].as_u64().unwrap_or(0);
+		let kind = r["skip_ladder"].as_str().unwrap_or("");
+		let hits: Vec<&Violation> = rep.violations.iter().filter(|v| v.replay["k"].as_u64() == Some(k) && v.replay["skip_ladder"].as_str() == Some(kind)).collect();
+		for v in &hits {
+			println!("  [{}] {}", v.class, v.what);
+		}
+		return if hits.is_empty() { 0 } else { 1 };
+	}
 	let unit = r["unit"].as_u64().unwrap_or(u64::MAX) as usize;
 	let params = Params::from_replay(r);
 	let us = units(&params);
@@ -1131,4 +1143,123 @@ pub fn replay(v: &serde_json::Value) -> i32 {
 	} else {
 		1
 	}
+}
+
+
+/// Skipping under the depth limit: a datum nested k containers deep (arrays / maps / records / a
+/// recursive record through an array, k = 1..48) followed by a sentinel; wherever READING the datum
+/// succeeds under `allowed_depth` = default, k+1 (record wrapper included), k+2, skipping it (field
+/// absent from the target, or the whole datum as IgnoredAny) must succeed too and consume the same
+/// bytes; and where reading fails for depth, skipping must not succeed with other bytes consumed.
+pub fn skip_ladders(rep: &mut Report) {
+	use serde::de::IgnoredAny;
+	#[derive(serde::Deserialize, Debug)]
+	#[allow(dead_code)]
+	struct OnlySentinel {
+		sentinel: i64,
+	}
+	fn zz(v: i64, o: &mut Vec<u8>) {
+		let mut z = ((v << 1) ^ (v >> 63)) as u64;
+		loop {
+			let b = (z & 0x7f) as u8;
+			z >>= 7;
+			if z == 0 {
+				o.push(b);
+				return;
+			}
+			o.push(b | 0x80);
+		}
+	}
+	let mut out: Vec<Violation> = Vec::new();
+	let mut rungs = 0u64;
+	for kind in ["array", "map", "record", "recursive"] {
+		for k in 1usize..=48 {
+			if kind == "record" && k > 30 {
+				continue;
+			}
+			// schema text of the payload and its encoding, nested k containers deep around the int -65
+			let mut schema = "\"int\"".to_owned();
+			let mut bytes: Vec<u8> = vec![0x81, 0x01];
+			match kind {
+				"array" => {
+					for _ in 0..k {
+						schema = format!("{{\"type\":\"array\",\"items\":{schema}}}");
+						let mut b = vec![0x02];
+						b.extend(&bytes);
+						b.push(0x00);
+						bytes = b;
+					}
+				}
+				"map" => {
+					for _ in 0..k {
+						schema = format!("{{\"type\":\"map\",\"values\":{schema}}}");
+						let mut b = vec![0x02, 0x02, b'k'];
+						b.extend(&bytes);
+						b.push(0x00);
+						bytes = b;
+					}
+				}
+				"record" => {
+					for level in 0..k {
+						schema = format!("{{\"type\":\"record\",\"name\":\"SL{level}\",\"fields\":[{{\"name\":\"f\",\"type\":{schema}}}]}}");
+					}
+				}
+				_ => {
+					// record Node { children: array<Node> }: a chain of k generations (the last one childless)
+					schema = "{\"type\":\"record\",\"name\":\"SNode\",\"fields\":[{\"name\":\"children\",\"type\":{\"type\":\"array\",\"items\":\"SNode\"}}]}".to_owned();
+					bytes = vec![0x00];
+					for _ in 1..k {
+						let mut b = vec![0x02];
+						b.extend(&bytes);
+						b.push(0x00);
+						bytes = b;
+					}
+				}
+			}
+			let text = format!("{{\"type\":\"record\",\"name\":\"verif.SkipLadder\",\"fields\":[{{\"name\":\"ignored\",\"type\":{schema}}},{{\"name\":\"sentinel\",\"type\":\"long\"}}]}}");
+			let cs: serde_avro_fast::Schema = match text.parse() {
+				Ok(s) => s,
+				Err(e) => {
+					eprintln!("MACHINERY: C12 skip ladder schema rejected: {e}");
+					std::process::exit(2);
+				}
+			};
+			zz(1234, &mut bytes);
+			let total = bytes.len();
+			bytes.extend_from_slice(&[0x2a, 0x2a]);
+			rungs += 1;
+			for limit in [None, Some(k + 1), Some(k + 2), Some(2 * k + 2)] {
+				let limits = Limits { allowed_depth: limit, max_seq_size: None, max_alloc_size: None };
+				// baseline: read everything (observation visitor)
+				rep.cover.impl_runs += 3;
+				rep.cover.evaluations += 1;
+				let read = subj::de_slice(&cs, &bytes, &crate::obs::Hint::Any, &limits);
+				let read_ok = matches!(&read, Out::Ok((_, n)) if *n == total);
+				let skip_field = subj::guarded(|| subj::de_slice_typed::<OnlySentinel>(&cs, &bytes, &limits));
+				let skip_all = subj::guarded(|| subj::de_slice_typed::<IgnoredAny>(&cs, &bytes, &limits));
+				let what_limit = limit.map_or("default allowed_depth".to_owned(), |l| format!("allowed_depth = {l}"));
+				let mut viol = |class: &str, what: String| {
+					out.push(Violation { class: class.to_owned(), what: format!("skip ladder: {k} nested {kind} levels followed by a sentinel, {what_limit}: {what}"), replay: json!({"check": "C12", "skip_ladder": kind, "k": k}) });
+				};
+				for (name, r) in [("field absent from the target", skip_field.map(|(v, n)| (format!("{v:?}"), n))), ("whole datum as IgnoredAny", skip_all.map(|(_, n)| ("IgnoredAny".to_owned(), n)))] {
+					match (&r, read_ok) {
+						(Out::Ok((v, n)), true) => {
+							if *n != total || (name.starts_with("field") && !v.contains("1234")) {
+								viol("skip-consumed", format!("{name}: reading consumes {total} bytes, skipping returned {v} consuming {n}"));
+							}
+						}
+						(Out::Err(e), true) => viol("skip-err", format!("{name}: reading succeeds, skipping fails: {e}")),
+						(Out::Ok((v, n)), false) if *n != total => viol("skip-consumed", format!("{name}: reading fails, skipping returned {v} consuming {n} of {total}")),
+						(Out::Panic(e), _) => viol("skip-panic", format!("{name}: panicked: {e}")),
+						_ => {}
+					}
+				}
+				if read_ok {
+					rep.cover.nontrivial.insert(hash64(&("skip-ladder", kind, k, limit)));
+				}
+			}
+		}
+	}
+	rep.cover.count("skip_ladder_rungs", rungs);
+	rep.violations.extend(out);
 }
